@@ -64,14 +64,14 @@ package model
 //@   ensures [value] result == (*w)[key]
 
 //@ func (*Weights).Copy
-//@   property C16 C07 C09 C01
+//@   property C16 C07 C09 C01 C20
 //@   ensures [copy] fresh(result) && fresh(*result) && (forall k string :: (k in *result <==> k in *w) && (k in *w ==> (*result)[k] == (*w)[k]))
 //@   loop 1 invariant [copied] forall k string :: seen(k) ==> (k in result && result[k] == (*w)[k])
 //@   loop 1 invariant [only] forall k string :: k in result ==> seen(k)
 //@   loop 1 invariant [ctx] fresh(result) && result != nil
 
 //@ func (*Weights).PreserveOnly
-//@   property C07 C15 C01 C11 C12 C13 C14
+//@   property C07 C15 C01 C11 C12 C13 C14 C09 C20
 //@   panics_iff [missing] exists i int :: 0 <= i && i < len(*criteria) && !((*criteria)[i].Id in *w)
 //@   ensures [restricted] fresh(result) && fresh(*result) && (forall i int :: 0 <= i && i < len(*criteria) ==> (*criteria)[i].Id in *result && (*result)[(*criteria)[i].Id] == (*w)[(*criteria)[i].Id])
 //@   ensures [only] forall k string :: k in *result ==> exists i int :: 0 <= i && i < len(*criteria) && (*criteria)[i].Id == k
@@ -80,7 +80,7 @@ package model
 //@   loop 1 invariant [ctx] fresh(cpy) && cpy != nil
 
 //@ func (*Weights).Merge
-//@   property C07 C18 C01 C11 C12 C13 C14 C03
+//@   property C07 C18 C01 C11 C12 C13 C14 C03 C09 C19 C20
 //@   panics_iff [overlap] exists k string :: k in *w && k in *other
 //@   ensures [union] fresh(result) && fresh(*result) && (forall k string :: (k in *result <==> (k in *w || k in *other)))
 //@   ensures [values] forall k string :: (k in *w ==> (*result)[k] == (*w)[k]) && (k in *other ==> (*result)[k] == (*other)[k])
@@ -150,7 +150,7 @@ package model
 //@   assumes [the_ranking_is_a_function_of_the_request] forall k int :: 0 <= k && k < len(*result) ==> (*result)[k].Id == rankedId(self, params, k)
 
 //@ func (*WeightedCriteria).Criteria
-//@   property C15 C07 C09 C20 C16 C18 C19
+//@   property C15 C07 C09 C20 C16 C18 C19 C01
 //@   ensures [same_order] fresh(result) && fresh(*result) && len(*result) == len(*w) && forall i int :: 0 <= i && i < len(*w) ==> (*result)[i] == (*w)[i].Criterion
 //@   loop 1 invariant [ctx] fresh(result) && len(result) == len(*w)
 //@   loop 1 invariant [copied] forall i int :: 0 <= i && i < iter ==> result[i] == (*w)[i].Criterion
@@ -171,7 +171,7 @@ package model
 //@   loop 1 invariant [zipped] forall i int :: 0 <= i && i < iter ==> (*c)[i].Id in *weights && weightedCriteria[i].Criterion == (*c)[i] && weightedCriteria[i].Weight == (*weights)[(*c)[i].Id]
 
 //@ func (*Criteria).SortByWeights
-//@   property C07 C15 C02 C09 C20 C16 C18 C19 C11
+//@   property C07 C15 C02 C09 C20 C16 C18 C19 C11 C01 C03
 //@   panics_iff [missing] exists i int :: 0 <= i && i < len(*c) && !((*c)[i].Id in weights)
 //@   ensures [len_is_criteria] fresh(result) && fresh(*result) && len(*result) == len(*c)
 //@   ensures [members] forall k int :: 0 <= k && k < len(*result) ==> exists j int :: 0 <= j && j < len(*c) && (*result)[k].Criterion == (*c)[j] && (*result)[k].Weight == weights[(*c)[j].Id]
@@ -205,7 +205,7 @@ package model
 //@   && (forall q string :: q in nw.Criteria ==> exists k int :: 0 <= k && k < len(cs) && cs[k].Id == q)
 
 //@ func (*AlternativeWithCriteria).WithCriteriaOnly
-//@   property C07 C15 C01 C03 C04 C09 C14 C16
+//@   property C07 C15 C01 C03 C04 C09 C14 C16 C20
 //@   panics_iff [missing] exists k int :: 0 <= k && k < len(*criteria) && !((*criteria)[k].Id in a.Criteria)
 //@   ensures [restricted] fresh(result) && fresh(result.Criteria) && restrictedTo(*result, *a, *criteria)
 //@   loop 1 invariant [ctx] fresh(newCriteria) && newCriteria != nil
@@ -213,7 +213,7 @@ package model
 //@   loop 1 invariant [only] forall q string :: q in newCriteria ==> exists k int :: 0 <= k && k < iter && (*criteria)[k].Id == q
 
 //@ func PreserveCriteriaForAlternatives
-//@   property C07 C15 C01 C03 C04 C09 C14 C16
+//@   property C07 C15 C01 C03 C04 C09 C14 C16 C20
 //@   panics_iff [missing] exists i int, k int :: 0 <= i && i < len(*alternatives) && 0 <= k && k < len(*criteria) && !((*criteria)[k].Id in (*alternatives)[i].Criteria)
 //@   ensures [shape] fresh(result) && fresh(*result) && len(*result) == len(*alternatives)
 //@   ensures [restricted] forall i int :: 0 <= i && i < len(*alternatives) ==> restrictedTo((*result)[i], (*alternatives)[i], *criteria) && fresh((*result)[i].Criteria)
@@ -261,7 +261,7 @@ package model
 //@   nopanic
 //@   ensures [ratio] result == ((currentRange.Max - currentRange.Min) != 0.0 ? (target.Max - target.Min) / (currentRange.Max - currentRange.Min) : 0.0)
 //@ func GetNormalScaleRatio
-//@   property C19 C18 C20 C09
+//@   property C19 C18 C20 C09 C01
 //@   ensures [ratio] result == ((currentRange.Max - currentRange.Min) != 0.0 ? 1.0 / (currentRange.Max - currentRange.Min) : 0.0)
 //@ func ValuesRangeWithGroundZero
 //@   property C18 C09 C01 C07 C20
@@ -298,7 +298,7 @@ package model
 //@ pred fractionOf(x real, w real) = (w > 0.0 ==> 0.0 <= x && x < w) && (w < 0.0 ==> w < x && x <= 0.0) && (w == 0.0 ==> x == 0.0)
 
 //@ func NewCriterionValue
-//@   property C18 C07 C15 C20 C01 C11
+//@   property C18 C07 C15 C20 C01 C11 C09 C19
 //@   fnparam generator ensures 0.0 <= result && result < 1.0
 //@   ensures [fraction_of_reference] fractionOf(result, (*previousWeights)[baseCriterion.Id])
 
@@ -353,24 +353,24 @@ package model
 //@   property C18 C19 C07 C09 C15 C20
 //@   ensures [first] len(*c) > 0 && result == (*c)[0]
 //@ func (*Criteria).Weight
-//@   property C15 C07 C09 C11 C16 C18 C19 C20
+//@   property C15 C07 C09 C11 C16 C18 C19 C20 C01 C03
 //@   panics_iff [no_such_criterion_or_weight] !(0 <= criterionIndex && criterionIndex < len(*c)) || !((*c)[criterionIndex].Id in weights)
 //@   ensures [of_that_criterion] (*c)[criterionIndex].Id in weights && result == weights[(*c)[criterionIndex].Id]
 //@ func (*Criteria).Names
-//@   property C20 C18 C19 C07 C09 C15 C03
+//@   property C20 C18 C19 C07 C09 C15 C03 C01
 //@   nopanic
 //@   ensures [ids_in_order] fresh(result) && fresh(*result) && len(*result) == len(*c) && forall i int :: 0 <= i && i < len(*c) ==> (*result)[i] == (*c)[i].Id
 //@   loop 1 invariant [so_far] fresh(result) && len(result) == len(*c) && forall i int :: 0 <= i && i < iter ==> result[i] == (*c)[i].Id
 //@ func (*Criteria).ShallowCopy
-//@   property C09 C07 C19 C15 C20
+//@   property C09 C07 C19 C15 C20 C01 C16 C18
 //@   nopanic
 //@   ensures [copy] fresh(result) && fresh(*result) && len(*result) == len(*c) && (forall i int :: 0 <= i && i < len(*c) ==> (*result)[i] == (*c)[i]) && unchanged(*c)
 //@ func (*Criteria).Len
-//@   property C20 C07 C09 C15 C01 C18
+//@   property C20 C07 C09 C15 C01 C18 C03 C04 C05 C06 C08 C11 C12 C13 C14 C16 C17 C19
 //@   nopanic
 //@   ensures result == len(*c)
 //@ func (Criterion).Identifier
-//@   property C20 C01 C07 C11 C15 C18 C09 C03
+//@   property C20 C01 C07 C11 C15 C18 C09 C03 C04 C05 C06 C08 C12 C13 C14 C16 C17 C19
 //@   nopanic
 //@   ensures result == c.Id
 //@ func (*WeightedCriterion).AsWeights
@@ -379,7 +379,7 @@ package model
 //@   ensures [single] result != nil && fresh(result) && c.Id in *result && (*result)[c.Id] == c.Weight && forall q string :: q in *result ==> q == c.Id
 
 //@ func SingleWeight
-//@   property C18 C07 C03 C04 C01 C11
+//@   property C18 C07 C03 C04 C01 C11 C09 C19 C20
 //@   nopanic
 //@   ensures [single] fresh(result.Weights) && criterion.Id in result.Weights && result.Weights[criterion.Id] == value
 //@             && forall q string :: q in result.Weights ==> q == criterion.Id
@@ -416,12 +416,12 @@ package model
 //@ spec blLen(it utils.IdentifiableIterable) int = len(it.(*BiasListeners).Listeners)
 //@ spec blAt(it utils.IdentifiableIterable, i int) utils.Identifiable = it.(*BiasListeners).Listeners[i]
 //@ func (*BiasListeners).Len
-//@   property C20 C07 C15
+//@   property C20 C07 C15 C01 C03 C04 C05 C06 C08 C09 C11 C12 C13 C14 C16 C17 C18 C19
 //@   nopanic
 //@   refines utils.IdentifiableIterable.Len with iterLen=blLen
 //@   ensures result == len(pf.Listeners)
 //@ func (*BiasListeners).Get
-//@   property C20 C07 C15
+//@   property C20 C07 C15 C01 C03 C04 C05 C06 C08 C09 C11 C12 C13 C14 C16 C17 C18 C19
 //@   refines utils.IdentifiableIterable.Get with iterAt=blAt
 //@   ensures 0 <= index && index < len(pf.Listeners) && result == pf.Listeners[index]
 // Fetch: the listener registered under the method's name; an unknown name is rejected
@@ -463,6 +463,7 @@ package model
 //@   loop 1 invariant [untouched] (forall i int :: 0 <= i && i < iter ==> !fires(dm, biasApplyProbGenerator, biases, i)) ==> current == params
 //@   loop 1 invariant [last_fired] forall i int :: 0 <= i && i < iter && fires(dm, biasApplyProbGenerator, biases, i)
 //@             && (forall j int :: i < j && j < iter ==> !fires(dm, biasApplyProbGenerator, biases, j)) ==> exists prev *DecisionMakingParams :: actsOn(*(*biases)[i].Bias, current, prev)
+//@   callhint Apply [only_a_bias_that_fires_is_run] fires(dm, biasApplyProbGenerator, biases, i)
 //@   loop 1 hint [each_bias_acts_on_the_state_the_previous_ones_left] (fires(dm, biasApplyProbGenerator, biases, i) ==> actsOn(*(*biases)[i].Bias, current, head(current)))
 //@             && (!fires(dm, biasApplyProbGenerator, biases, i) ==> current == head(current))
 
@@ -508,12 +509,12 @@ package model
 //@ spec pfLen(it utils.IdentifiableIterable) int = len(it.(*PreferenceFunctions).Functions)
 //@ spec pfAt(it utils.IdentifiableIterable, i int) utils.Identifiable = it.(*PreferenceFunctions).Functions[i]
 //@ func (*PreferenceFunctions).Len
-//@   property C20 C01
+//@   property C20 C01 C03 C04 C05 C06 C07 C08 C09 C11 C12 C13 C14 C15 C16 C17 C18 C19
 //@   nopanic
 //@   refines utils.IdentifiableIterable.Len with iterLen=pfLen
 //@   ensures result == len(pf.Functions)
 //@ func (*PreferenceFunctions).Get
-//@   property C20 C01
+//@   property C20 C01 C03 C04 C05 C06 C07 C08 C09 C11 C12 C13 C14 C15 C16 C17 C18 C19
 //@   refines utils.IdentifiableIterable.Get with iterAt=pfAt
 //@   ensures 0 <= index && index < len(pf.Functions) && result == pf.Functions[index]
 // Fetch: returns only the method registered under the requested name - so an unknown name never gets past it (it panics)
@@ -697,7 +698,7 @@ package model
 
 // the weights of a request: what its "weights" parameter decodes to; a request without that parameter is rejected
 //@ func ExtractWeights
-//@   property C03 C20 C15 C07 C04
+//@   property C03 C20 C15 C07 C04 C01
 //@   panics_if [weights_missing] !("weights" in dm.MethodParameters)
 //@   ensures [given] "weights" in dm.MethodParameters
 //@ func WeightsParamOnly
@@ -730,7 +731,7 @@ package model
 // ---- copying / removing alternatives (C01, C09)
 
 //@ func CopyAlternatives
-//@   property C09 C01 C03 C04 C14 C16 C11 C12 C13
+//@   property C09 C01 C03 C04 C14 C16 C11 C12 C13 C20
 //@   nopanic
 //@   ensures [fresh_copy] fresh(result) && fresh(*result) && len(*result) == len(*alternatives) && forall k int :: 0 <= k && k < len(*alternatives) ==> (*result)[k] == (*alternatives)[k]
 //@   ensures [input_untouched] unchanged(*alternatives)
@@ -740,7 +741,7 @@ package model
 //@ spec isShuffle(r *[]AlternativeWithCriteria, a *[]AlternativeWithCriteria, g func() float64, n int) bool
 //@ func ShuffleAlternatives
 //@   assumes [the_shuffle_drawn_from_that_generator] isShuffle(result, alternatives, generator, old(calls(generator)))
-//@   property C09 C01 C03 C04 C14 C16 C11 C12 C13
+//@   property C09 C01 C03 C04 C14 C16 C11 C12 C13 C20
 //@   fnparam generator ensures 0.0 <= result && result < 1.0
 //@   ensures [fresh_permutation] fresh(result) && fresh(*result) && len(*result) == len(*alternatives)
 //@   ensures [members] forall k int :: 0 <= k && k < len(*result) ==> exists j int :: 0 <= j && j < len(*alternatives) && (*result)[k] == (*alternatives)[j]
@@ -753,7 +754,7 @@ package model
 
 // RemoveAlternative deletes the first element with the given id IN PLACE (the caller must own the backing array)
 //@ func RemoveAlternative
-//@   property C09 C01 C03 C04 C14 C16 C11 C12 C13
+//@   property C09 C01 C03 C04 C14 C16 C11 C12 C13 C20
 //@   assigns alternatives
 //@   ensures [absent] (forall k int :: 0 <= k && k < len(alternatives) ==> old(alternatives[k]).Id != alternative.Id) ==> result == alternatives && unchanged(alternatives)
 //@   ensures [removed] forall i int :: 0 <= i && i < len(alternatives) && old(alternatives[i]).Id == alternative.Id && (forall k int :: 0 <= k && k < i ==> old(alternatives[k]).Id != alternative.Id) ==>
@@ -764,7 +765,7 @@ package model
 //@   loop 1 invariant [untouched] unchanged(alternatives)
 
 //@ func (*AlternativesRanking).ReverseOrder
-//@   property C01 C11 C03 C04 C09 C14 C16
+//@   property C01 C11 C03 C04 C09 C14 C16 C20
 //@   assigns *r
 //@   ensures [reversed] *r == old(*r) && forall k int :: 0 <= k && k < len(*r) ==> (*r)[k] == old((*r)[len(*r) - 1 - k])
 //@   loop 1 invariant [ctx] *r == old(*r) && 0 <= i && j == len(*r) - 1 - i && i <= j + 1
@@ -776,7 +777,7 @@ package model
 //@      n <= 0 ? 0.0 : cumw(alts, q, n - 1, f) + (q in alts[n - 1].Criteria ? apply(f, q, alts[n - 1].Criteria[q]) : 0.0)
 
 //@ func PrepareCumulatedWeightsMap
-//@   property C15 C07 C20 C16 C18 C19
+//@   property C15 C07 C20 C16 C18 C19 C01 C09
 //@   fnparam mapper pure
 //@   ensures [sums_over_considered_alternatives] fresh(result) && fresh(*result) && forall q string :: (q in *result ==> (*result)[q] == old(cumw(params.ConsideredAlternatives, q, len(params.ConsideredAlternatives), mapper)))
 //@             && (!(q in *result) ==> old(cumw(params.ConsideredAlternatives, q, len(params.ConsideredAlternatives), mapper)) == 0.0)
@@ -793,7 +794,7 @@ package model
 //@             && (!(q in weights) ==> old(cumw(params.ConsideredAlternatives, q, iter2 - 1, mapper)) == 0.0)
 
 //@ func WeightIdentity
-//@   property C15 C07 C20 C16 C18 C19
+//@   property C15 C07 C20 C16 C18 C19 C01 C09
 //@   nopanic
 //@   ensures [identity] result == value
 
